@@ -619,7 +619,7 @@ def replay(path):
         except OSError:
             pass
         if rc != 0:
-            print(err[-3000:])
+            print(err[:6000])
             found = True
         print("REPRODUCED" if found else "not reproduced")
         return 1 if found else 0
